@@ -4,7 +4,7 @@
    execution only. *)
 From Coq Require Import List NArith ZArith Bool Arith.
 Import ListNotations.
-From Stam Require Import Base.Sx Model.Offset Model.Store Model.Loader Model.Csv Spec.CsvSpec Proofs.Loader Proofs.StoreSets Proofs.Csv Proofs.CsvSet Proofs.CsvResolve.
+From Stam Require Import Base.Sx Model.Offset Model.Store Model.Loader Model.Csv Spec.CsvSpec Proofs.Loader Proofs.StoreIds Proofs.StoreSets Proofs.Csv Proofs.CsvSet Proofs.CsvResolve Proofs.CsvStore.
 
 (* splitting a column on ';' gives back the values that were joined, for any number of values *)
 Theorem C15_split_join : forall l, (forall x, In x l -> has_semi x = false) -> l <> [] ->
@@ -97,6 +97,28 @@ Theorem C15_set_file_roundtrip : forall d rows, dset_ok d -> save_set d = Some r
   exists d', load_set (name_set (d_id d)) rows = Some d' /\ content_set d' = content_set d.
 Proof. exact set_file_roundtrip. Qed.
 
+(* THE PROPERTY at store level.  For every store with exact id maps whose ranges, target shapes
+   and reference order are well-formed (Good: IdInv, SetsInv, store_ok, shape_ok, every item with
+   a public id, annotation targets point to earlier annotations) and that the writer can write:
+   loading what was saved succeeds and gives a store with the content of the original - same
+   resources, same data sets with the same keys, data ids, keys and value texts, same annotations
+   with the same ids, data references, selector kinds, referenced items and absolute ranges.
+   The proof is a simulation over the rows: after n rows the store being loaded holds the first n
+   live annotations of the original under the renaming handle -> rank, text selections interned
+   in whatever order (Proofs/CsvStore.v). *)
+Theorem C15_load_save : forall s f, Good s -> save s = Some f ->
+  exists s', load f = LOk s' /\ content s' = content s.
+Proof. exact load_save_content. Qed.
+
+(* ... in particular for every REACHABLE store outside the two known classes: the model of the
+   round trip equals the specification.  The remaining hypotheses are decidable and evaluated on
+   every explored store by Run/C15.v (hyps_ok, save <> None) or concern the size of numbers
+   (ids_fit); Forall op_ok is C03's hypothesis on data ids *)
+Theorem C15_statement : forall ops, Forall op_ok ops -> ids_fit (run ops) -> hyps_ok (run ops) = true ->
+  known_class (run ops) = 0 -> save (run ops) <> None ->
+  sx_of_loaded (roundtrip (run ops)) = roundtrip_spec (run ops).
+Proof. exact reachable_roundtrip. Qed.
+
 (* the known classes are real failures of the full property *)
 Theorem C15_tempid_refuted :
   Known_C15_tempid (run tempid_ops) = true
@@ -113,7 +135,7 @@ Proof. exact Known_C15_empty_complex_witness. Qed.
 (* non-vacuity: a store with every selector kind, all alignments, a relative offset, a composite
    with eight mixed members, typed values and a removed annotation satisfies the full property *)
 Example C15_nonvacuous :
-  known_class (run demo_ops) = 0 /\ store_ok (run demo_ops) = true
+  known_class (run demo_ops) = 0 /\ hyps_ok (run demo_ops) = true
   /\ sx_of_loaded (roundtrip (run demo_ops)) = roundtrip_spec (run demo_ops)
   /\ length (live_items (anns (run demo_ops))) = 5.
 Proof. exact demo_roundtrip. Qed.
